@@ -137,14 +137,14 @@ ObsCommon ==
     /\ Observe
 
 ObsNew ==
-    /\ Ev.a = "New" /\ ObsCommon
+    /\ l <= Len(TLog) /\ Ev.a = "New" /\ ObsCommon
     /\ vt' = (Ev.out.r :> VersionOf(Ev.out))
     /\ chain' = ObsChain /\ dead' = {} /\ quiet' = FALSE /\ blocked' = 0 /\ jobs' = <<>>
     /\ conf' = [buf |-> Ev.in.buf, q |-> Ev.in.q, snaps |-> Ev.in.snaps, cpmod |-> Ev.in.cpmod, f3 |-> FALSE]
     /\ clean' = (Ev.in.clean = 1) /\ manual' = 0
 
 ObsBlock ==
-    /\ Ev.a \in {"Commit", "Finalize", "Rollback", "Enter", "Exit"} /\ ObsCommon
+    /\ l <= Len(TLog) /\ Ev.a \in {"Commit", "Finalize", "Rollback", "Enter", "Exit"} /\ ObsCommon
     /\ vt' = IF Ev.a = "Commit" THEN (Ev.out.r :> VersionOf(Ev.out)) @@ vt ELSE vt
     /\ chain' = ObsChain
     /\ dead' = dead \cup Gone
@@ -159,7 +159,7 @@ ObsBlock ==
     /\ UNCHANGED <<jobs, conf, clean>>
 
 ObsJob ==
-    /\ Ev.a \in {"SnapStart", "CpStart", "SnapStep"} /\ ObsCommon
+    /\ l <= Len(TLog) /\ Ev.a \in {"SnapStart", "CpStart", "SnapStep"} /\ ObsCommon
     /\ jobs' = JobsAfter(IF Ev.a = "SnapStart" THEN Append(jobs, NewJob(vt[Ev.in.r], "s"))
                          ELSE IF Ev.a = "CpStart" THEN Append(jobs, NewJob(vt[Ev.in.r], "c")) ELSE jobs, Ev.out.done)
     /\ blocked' = Ev.st.blk
